@@ -23,9 +23,10 @@ From Coq Require Import List NArith.
 From P9 Require Import Model.SessLock Proofs.SessLockProofs Proofs.SessLockProofsLin Proofs.SessLockProofsScopes Proofs.SessLockProofsTie.
 From P9 Require Import Gen.GenSessLock.
 
-(* the programs below were transcribed from the functions whose lock-protocol skeleton (returns, defers,
-   Lock/Unlock, table calls, FileSys calls, SFid field accesses, in source order) the translator has just
-   re-extracted from the current source: it is still the transcribed one *)
+(* the programs below were transcribed from the methods whose lock-protocol trace sets (over all syntactic
+   paths, helpers inlined: table calls, Lock/Unlock, protected-field accesses, FileSys calls, returns) the
+   translator has just re-derived from the current source through go/types: they are still the transcribed
+   ones (number of traces and SHA-256 of their text, per exported method of the session type) *)
 Theorem C14_source_skeleton_unchanged : sesslock_skeleton = transcribed_skeleton.
 Proof. exact skeleton_unchanged. Qed.
 Print Assumptions C14_source_skeleton_unchanged.
